@@ -146,10 +146,6 @@ func genForced(r *hxlib.Rand) sc {
 	return s
 }
 
-// findings of the family peer-still-writing that are recorded as observations (see search.go)
-var observeOnly = map[string]bool{"delivery:lost-at-close:peer-still-writing": true, "counters:sent": true}
-var observed = map[string]bool{}
-
 func runOne(r *hxlib.Run, s sc, mutants bool) {
 	if hxconn.GiveUp() && r.Replay == "" {
 		r.Count("skipped-after-confirmed-hangs")
@@ -200,14 +196,6 @@ func runOne(r *hxlib.Run, s sc, mutants bool) {
 	for _, f := range fs {
 		if f.Key == "hang" {
 			r.Count("abandoned-run(hang; judged by C04)")
-			continue
-		}
-		if observeOnly[f.Key] && s.Name == "peer-still-writing" {
-			r.Count("observation:" + f.Key)
-			if !observed[f.Key] {
-				observed[f.Key] = true
-				r.Note("observation on this tree (family peer-still-writing, reported as an observation, not through the oracle): %s", f.What)
-			}
 			continue
 		}
 		r.Fail(f.Key, f.What, s)
@@ -285,5 +273,13 @@ func main() {
 	}
 	for k := 0; k < r.Scale(16, 80); k++ {
 		runOne(r, genForced(r.R), false)
+	}
+	// a graceful Close while the peer is still writing (and reads only after Close returned): every accepted packet
+	// must still arrive. (The Close that shut the receive side first lost the tail of the backlog here, ≈ 9 runs in 10.)
+	for k := 0; k < r.Scale(8, 60); k++ {
+		runOne(r, hxconn.GenPeerWritesThroughClose(r.R), false)
+	}
+	for k := 0; k < r.Scale(6, 60); k++ {
+		runOne(r, hxconn.GenPeerStillWriting(r.R), false)
 	}
 }
